@@ -103,8 +103,12 @@ def expand(job):
                 d.update(e)
             if not d["y"] and not d["mo"]:
                 d["mo"] = 1
-            yield {"mode": sp, "p": gen.rand_point(rnd, m, wide=rnd.random() < 0.2, whole=True), "d": d,
-                   "how": rnd.choice(["add", "radd", "sub"])}
+            fracp = rnd.random() < 0.12
+            if fracp and rnd.random() < 0.5:
+                k_ = rnd.choice(["h", "mi", "s"])
+                d[k_] = d.get(k_, 0) + rnd.choice([0.5, 0.25, -0.75, 1.5])
+            p = gen.rand_point(rnd, m, wide=rnd.random() < 0.2, whole=not fracp, allow24=not fracp)
+            yield {"mode": sp, "p": p, "d": d, "how": rnd.choice(["add", "radd", "sub"])}
     else:
         raise ValueError(k)
 
